@@ -143,7 +143,7 @@ def execute(case):
                         except Exception:
                             return 777777
                     name, level = meta[s["layer"]]
-                    recs.append({"layer": s["layer"], "value": g("value", 1), "d": g("demand", 1), "s": g("supply", 1), "u": g("utilisation", 4), "a": g("allocation", 4),
+                    recs.append({"layer": s["layer"], "value": g("value", 1), "d": g("demand", 1), "s": g("supply", 1), "u": g("utilisation", 4), "a": g("allocation", 4), "c": g("consumption", 4),
                                  "pre": pre.get(s["layer"], [777777] * 4), "emitd": to_grid(s["emitd"], 1), "late": [g("value", 1), g("demand", 1), g("supply", 1), g("utilisation", 4), g("allocation", 4)],
                                  "nameok": r.name == name, "levelok": r.levelno == level})
                     # "late" is read now, i.e. after the write completed; "d/s/u/a" must have been fixed at emission
